@@ -30,3 +30,6 @@ static void entry_size_harness() {
 extern "C" void hq_entry_size_T1(void) { entry_size_harness<T1>(); }
 extern "C" void hq_entry_size_T2(void) { entry_size_harness<T2>(); }
 extern "C" void ht_entry_size_T3(void) { entry_size_harness<T3>(); }
+
+#define CI(tier, name, T, Inner) extern "C" void tier##_cap_inner_##name##__##Inner(void) { cap_inner_harness<T, Inner>(); }
+CI(hq, S0, S0, BW) CI(hq, S1, S1, BW) CI(hq, T1, T1, BW) CI(hq, u64, u64, CBW) CI(hq, a_u16_2, P_a_u16_2, PBW) CI(ht, S2, S2, BW) CI(ht, LB2, LB2, BW) CI(ht, T2, T2, CBW)
